@@ -345,9 +345,69 @@ def real_ops(seed, ops, via_srandom):
     return out
 
 
+class _StubRng:
+    """stands in for the module-level XorShift object: hands out the prepared raw outputs, then zeros"""
+    def __init__(self, raws):
+        self.raws = list(raws)
+        self.used = 0
+
+    def next(self):
+        self.used += 1
+        return self.raws.pop(0) if self.raws else 0
+
+
+def randint_boundary_failures(limit_widths=None):
+    """`randint(a, b)` at the rejection boundary, for EVERY width up to 1300 and the widths where 2^32 or 2^32 +- 1 factor:
+    the raw outputs just below / at / above `limit = 2^32 - 2^32 % w` and the last output are fed in through a stub generator;
+    the documented behaviour is rejection sampling (accept x < limit, return a + x % w).  Returns a list of descriptions."""
+    dr, sr, _, _ = _mods()
+    D = D32
+    widths = list(range(1, 1301)) + [2 ** k + d for k in (11, 12, 16, 20, 24, 31, 32) for d in (-1, 0, 1)] + [
+        65537, 6700417, 641 * 3, 641 * 65537, 4294967295 // 3, 4294967295 // 5, 4294967295 // 17, 4294967295 // 257, D - 1, D]
+    widths = sorted({w for w in widths if 1 <= w <= D})
+    if limit_widths:
+        widths = widths[:limit_widths]
+    bad = []
+    old = dr._rng
+    try:
+        for w in widths:
+            limit = D - D % w
+            probes = sorted({x for x in (limit - 1, limit, limit + 1, limit + w - 2, D - 1, D - 2, w - 1, w) if 0 <= x < D})
+            for a in (0, -7):
+                for x in probes:
+                    tail = [5 % w + 3 * w if 3 * w + 5 % w < limit else 0]
+                    stub = _StubRng([x] + tail)
+                    dr._rng = stub
+                    try:
+                        with _guard(3.0):
+                            got = dr.randint(a, a + w - 1)
+                    except Exception as e:
+                        got = _err(e)
+                    seq = [x] + tail + [0, 0]
+                    k = next(i for i, y in enumerate(seq) if y < limit)
+                    want = a + seq[k] % w
+                    if got != want or stub.used != k + 1:
+                        bad.append("randint(%d, %d) [width %d] with raw outputs %s: returned %s after %d draws, rejection sampling "
+                                   "(accept x < %d) returns %d after %d" % (a, a + w - 1, w, [x] + tail, got, stub.used, limit, want, k + 1))
+                        break
+                if bad and bad[-1].startswith("randint(%d, %d)" % (a, a + w - 1)):
+                    break
+            if len(bad) >= 3:
+                break
+    finally:
+        dr._rng = old
+    return bad
+
+
 def corr_prng(ctx, drv):
     dr, sr, _, _ = _mods()
     rng = ctx.rng
+    for what in randint_boundary_failures():
+        ctx.disagree("randint-boundary", what=what)
+        if not hasattr(ctx, "concrete"):
+            ctx.concrete = []
+        ctx.concrete.append(Finding("randint:rejection-boundary", what, {"kind": "randint-boundary"}))
+    ctx.count("prng:boundary-widths", 1)
     seeds = _seeds(rng, ctx.n(30, 120))
     nout = 10000
     lines = [sx(["c19_next", s, nout]) for s in seeds]
@@ -1463,6 +1523,9 @@ def replay(ctx, data):
         d = check_cross_process()
         return Finding("reproducibility:cross-process", d[0], d[1]) if d else None
     k = data.get("kind")
+    if k == "randint-boundary":
+        bad = randint_boundary_failures()
+        return Finding("randint:rejection-boundary", bad[0], data) if bad else None
     if k == "randint":
         d = check_randint(data["a"], data["b"], data["seed"])
         return Finding("randint:lower-bound" if data["a"] <= data["b"] else "randint:no-valueerror", d, data) if d else None
